@@ -302,6 +302,31 @@ def cargo_build(crate, profile="release", features=None, bins=None, timeout=2400
         return os.path.join(tdir, "release" if profile == "release" else "debug"), out[-2000:]
 
 
+def server_src():
+    """source tree the agdb_server binary is built from (VERIF_SERVER_SRC lets a check run
+    against a scratch copy of the repository, e.g. for mutation tests)"""
+    return os.environ.get("VERIF_SERVER_SRC", REPO)
+
+
+def build_server(timeout=3600):
+    """cargo build -p agdb_server (debug) from server_src() into .cache/target-server[-<hash>].
+    returns (path_to_binary | None, log)"""
+    src = server_src()
+    tdir = os.path.join(CACHE, "target-server" if os.path.realpath(src) == os.path.realpath(REPO)
+                        else "target-server-" + hashlib.sha256(os.path.realpath(src).encode()).hexdigest()[:8])
+    with Lock("cargo-server"):
+        cmd = ["cargo", "build", "--offline", "-p", "agdb_server", "--manifest-path", os.path.join(src, "Cargo.toml"),
+               "--target-dir", tdir]
+        env = {"RUSTFLAGS": "--cfg %s" % GUARD_CFG, "CARGO_NET_OFFLINE": "true"}
+        try:
+            rc, out = sh(cmd, env=env, timeout=timeout)
+        except subprocess.TimeoutExpired:
+            return None, "cargo build of agdb_server timed out"
+        if rc != 0:
+            return None, out[-6000:]
+        return os.path.join(tdir, "debug", "agdb_server"), out[-2000:]
+
+
 # --------------------------------------------------------------------------
 # evidence, replays, known findings
 # --------------------------------------------------------------------------
